@@ -66,8 +66,28 @@ inline u64 mix(u64 x)
 inline u64 tagv(int slot, u64 pos) { return mix(((u64)(slot + 1) << 40) + pos) % P; } // canonical, distinct per (operand, position)
 inline u64 sentv(u64 pos) { return mix(0xD00D000000000000ULL + pos) | 0x8000000000000000ULL; }
 
+// gap words: pattern NIP + code, code = sum g_k 3^(k-1) over the L-1 gaps between neighbouring lanes, g in
+//   0 consecutive (idx[k] = idx[k-1] + dim), 1 jump (idx[k] = max used + dim + 1), 2 wrap (idx[k] = min used - 9*dim - 1);
+// every word designates L distinct, non-overlapping elements (a run after a wrap is at most 7 elements long and stays below
+// the previous minimum), so the words are legal for results as well
+inline u64 gapval(int code, int k, int L, int dim)
+{
+    u64 cur = (u64)(9 * dim + 1) * 8, lo = cur, hi = cur;
+    for (int j = 1; j <= k; j++)
+    {
+        int g = code % 3;
+        code /= 3;
+        cur = g == 0 ? cur + dim : g == 1 ? hi + dim + 1 : lo - 9 * dim - 1;
+        lo = std::min(lo, cur);
+        hi = std::max(hi, cur);
+    }
+    (void)L;
+    return cur;
+}
+inline std::string ipname(int pat);
 inline u64 idxval(int pat, int k, int L, int dim)
 {
+    if (pat >= NIP) return gapval(pat - NIP, k, L, dim);
     switch (pat)
     {
     case IP_IDENT: return (u64)k * dim;
@@ -160,13 +180,14 @@ inline std::string casestr(const Case &c)
     {
         const Operand &o = opnd(s, q);
         if (o.carrier == C_ARR_STRIDE) t += fmt(" s%s=%llu", sn[q], (unsigned long long)c.s[q]);
-        if (o.carrier == C_ARR_IDX) t += fmt(" i%s=%s", sn[q], IPN[c.ip[q]]);
+        if (o.carrier == C_ARR_IDX) t += fmt(" i%s=%s", sn[q], ipname(c.ip[q]).c_str());
     }
     t += fmt(" vp=%d vd=%d vm=%d", c.vp, c.vd, c.vm);
     if (c.al) t += fmt(" alias=%s", ALN[c.al]);
     if (c.reent) t += fmt(" reent=%d", c.reent);
     return t;
 }
+inline std::string ipname(int pat) { return pat < NIP ? std::string(IPN[pat]) : fmt("g%d", pat - NIP); }
 inline int find_spec(const std::string &id)
 {
     for (int i = 0; i < ovl_nspecs; i++)
@@ -186,6 +207,7 @@ inline bool parse_casestr(const std::string &str, Case &c)
         std::string p = cs(m, ik[q], "ident");
         for (int j = 0; j < NIP; j++)
             if (p == IPN[j]) c.ip[q] = j;
+        if (p.size() > 1 && p[0] == 'g' && isdigit((unsigned char)p[1])) c.ip[q] = NIP + atoi(p.c_str() + 1);
     }
     c.vp = (int)cu(m, "vp", 0);
     c.vd = (int)cu(m, "vd", 0);
@@ -207,7 +229,8 @@ inline bool is_huge(const Case &c)
         if (opnd(s, q).carrier == C_ARR_STRIDE && c.s[q] >= HUGE_FROM) return true;
     return false;
 }
-inline std::string sig_suffix(const Case &c) { return std::string(c.al ? ".alias" : "") + (is_huge(c) ? ".hugestride" : ""); }
+inline bool is_gapword(const Case &c) { return c.ip[0] >= NIP || c.ip[1] >= NIP || c.ip[2] >= NIP; }
+inline std::string sig_suffix(const Case &c) { return std::string(c.al ? ".alias" : "") + (is_huge(c) ? ".hugestride" : "") + (is_gapword(c) ? ".idxshape" : ""); }
 
 // ---------------------------------------------------------------- one case
 struct Counters
@@ -805,6 +828,55 @@ inline void run_huge(int si, const char *prop)
     rep().flush();
 }
 
+// ---------------------------------------------------------------- index-list shapes
+// Every overload with an index-array carrier: every gap word (see gapval) over {consecutive, jump, wrap}^(L-1) -- each index
+// parameter alone (the others identity) and all of them together; tag pass.  A shortcut taken for "consecutive" lists has to be
+// right for every list in which only some neighbours are consecutive.
+inline void run_gaps(int si, const char *prop)
+{
+    const Spec &s = ovl_specs[si];
+    std::vector<int> iq;
+    for (int q = 0; q < 3; q++)
+        if (opnd(s, q).carrier == C_ARR_IDX) iq.push_back(q);
+    if (iq.empty()) return;
+    int L = s.lanes, nw = 1;
+    for (int k = 1; k < L; k++) nw *= 3;
+    Counters cnt;
+    long long nv = 0;
+    for (int code = 1; code < nw; code++) // code 0 is the identity list up to its base
+        for (size_t pick = 0; pick <= iq.size(); pick++)
+        {
+            if (pick == iq.size() && iq.size() < 2) continue;
+            Case c;
+            memset(&c, 0, sizeof c);
+            c.si = si;
+            c.vm = 1;
+            for (int q = 0; q < 3; q++)
+            {
+                const Operand &o = opnd(s, q);
+                c.s[q] = o.kind;
+                bool mine = o.carrier == C_ARR_IDX && (pick == iq.size() || iq[pick] == q);
+                c.ip[q] = mine ? NIP + code : IP_IDENT;
+            }
+            std::string cs_ = casestr(c);
+            if (g_cur) { strncpy(g_cur, cs_.c_str(), 4000); g_cur[4000] = 0; }
+            std::string f = run_case(c, &cnt);
+            if (f.empty()) continue;
+            size_t t = f.find('\t');
+            rep().viol(std::string(prop) + "." + f.substr(0, t) + "." + s.id + sig_suffix(c), cs_, fmt("%s(%s) %s:%d: ", s.name, s.decl, s.file, s.line) + f.substr(t + 1));
+            if (++nv >= 40) goto done;
+        }
+done:
+    if (g_cur) g_cur[0] = 0;
+    const char *pre = OVL_EXACT ? "asan_" : "";
+    rep().stat(std::string(pre) + "states", cnt.cases);
+    rep().stat(std::string(pre) + "transitions", cnt.cases);
+    rep().stat(std::string(pre) + "evaluations", cnt.evals);
+    if (!OVL_EXACT) rep().stat("distinct_nontrivial", cnt.cases);
+    rep().stat(std::string(pre) + "idxshape_states", cnt.cases);
+    rep().flush();
+}
+
 inline std::string clean(std::string t);
 #if OVL_TSAN
 // ---------------------------------------------------------------- re-entrancy (ThreadSanitizer build)
@@ -1069,6 +1141,15 @@ inline int ovl_main(int argc, char **argv)
             report_abnormal(r, si, prop, g_cur);
             rep().stat("overloads_aborted", 1);
             rep().flush(); // before the next child is forked (it would inherit and re-print these counters)
+        }
+        {
+            g_cur[0] = 0;
+            Iso h = isolated([&]() { run_gaps(si, prop); }, 300);
+            if (h.kind != 0)
+            {
+                report_abnormal(h, si, prop, g_cur);
+                rep().flush();
+            }
         }
         if (!OVL_PRIVATE)
         {
